@@ -711,3 +711,16 @@ func SlotDocs() [][]byte {
 	}
 	return out
 }
+
+// URLShapeDocs places destinations with raw tabs, carriage returns, spaces, backslashes and percent signs (the bytes a
+// URL predicate or escaper might strip, fold or rewrite) in every URL-bearing construct of the URL check.
+func URLShapeDocs() [][]byte {
+	pay := []string{"x\ty", "x\ry", "\tx", "x\t", "a b", "x\\\ty", "%0Ax", "x%", "java\tscript:a", "\x01x", "x\u00a0y", "/p(q)r", "<x>", "x\\>y", "é/ü?a=b&c"}
+	var out [][]byte
+	for _, k := range urlConstructs {
+		for _, p := range pay {
+			out = append(out, []byte(strings.ReplaceAll(k.tmpl, "§", p)))
+		}
+	}
+	return out
+}
